@@ -40,7 +40,7 @@ pub fn base() -> u64 {
 /// Update / node-announcement timestamps: 17 coarse slots inside (now-13d, now+9h], i.e. inside the
 /// window a production (non-`_test_utils`) build accepts as neither stale nor from the future.
 pub fn ts(slot: u8) -> u32 {
-	(base() as i64 - 13 * DAY + HOUR + (slot.min(16) as i64) * 20 * HOUR) as u32
+	(base() as i64 - 13 * DAY + HOUR + (slot.min(16) as i64) * 20 * HOUR + (slot as i64 * 977) % 3571) as u32
 }
 /// Pairwise distinct timestamps (used by the confluence part), same window.
 pub fn ts_distinct(k: usize) -> u32 {
